@@ -27,6 +27,7 @@ LEVEL_TEXT = (
     "succeed or raise SyntaxError or an MPilotError, and str() of the error must render. Every MPilotError outcome of "
     "(a)/(c) and a third of (b) is repeated through the command-line tool, which must exit non-zero with the message on "
     "standard error. The matrix is complete; corruptions and CSV contents are sampled."
+    " A plug-in command raising 30 different exception classes at three positions of a model, a CSV field beyond the csv module's limit, and non-finite number texts are part of the matrix."
 )
 LEVEL_NOTE = "UnexpectedError is an MPilotError and therefore an allowed outcome; what a SyntaxError looks like through the CLI is not part of the statement."
 RULE = (
